@@ -1743,8 +1743,28 @@ func (c *Ctx) optionWiring(e entry, ri *stageCall) {
 		v, at := gs.arg(3)
 		c.check(isUseDSSE(v, at), R, fn, "the summary link uses the layout's wrapper kind", gs.site().Pos(), "useDSSE", "argument is "+short(org(v)))
 		v, at = gs.arg(2)
-		_, isP := resolve(v, at).(*ssa.Parameter)
+		prm, isP := resolve(v, at).(*ssa.Parameter)
 		c.check(isP && typeStr(v.Type()) == "string", R, fn, "the summary link is named by the stepName parameter", gs.site().Pos(), org(v), "summary name is "+short(org(v)))
+		if isP && prm.Parent() == e.f {
+			// the name parameter names the summary and nothing else: a parameter that is also a directory handed to
+			// another stage (link directory, run directory) is not the requested name
+			other := ""
+			for _, r := range *prm.Referrers() {
+				call, ok := r.(ssa.CallInstruction)
+				if !ok {
+					continue
+				}
+				if call == gs.site() || call == gs.call {
+					continue
+				}
+				// only stages and file-system calls make the parameter a directory; logging it does not
+				if n := calleeName(call); strings.HasPrefix(n, "in_toto.") || strings.HasPrefix(n, "os.") || strings.HasPrefix(n, "path/filepath.") {
+					other = n
+				}
+			}
+			c.check(other == "", R, fn, "the summary name is a parameter of its own", gs.site().Pos(), prm.Name()+" is used for nothing else",
+				"the summary link is named by parameter "+prm.Name()+", which is also an argument of "+other+": a directory is passed where the requested step name belongs")
+		}
 	}
 }
 
